@@ -47,11 +47,11 @@ impl Family for Inference {
         30
     }
     fn rule(&self) -> &'static str {
-        "closures with unannotated parameters `|x| B`, `|x, y| B` and a let-bound `|x| B` applied to itself, where B ranges over every application of {ref, ref_get, ref_set, vec_len, vec_push, vec_get, array_get, array_set, ==, tuple, array, if, projection, the parameters themselves} to arguments from {x, y, ref(x), ref_get(x), vec_new(), (x,x), [x,x], x(x), 0, vec_push(x,y)} (1160 bodies x 6 frames: unapplied, two parameters, applied to itself, applied later to two functions / two vectors / two integers); oracle: the compiler returns (acceptance or diagnostics) without panic, stack overflow or hang; an accepted program passes the IR checker and the Go checker. non-trivial = bodies the typer rejects; distinct = distinct source text"
+        "closures with unannotated parameters `|x| B`, `|x, y| B` and a let-bound `|x| B` applied to itself, where B ranges over every application of {ref, ref_get, ref_set, vec_len, vec_push, vec_get, array_get, array_set, ==, tuple, array, if, projection, the parameters themselves} to arguments from {x, y, ref(x), ref_get(x), vec_new(), (x,x), [x,x], x(x), 0, vec_push(x,y)} (1160 bodies x 10 frames: unapplied, two parameters, applied to itself, applied later to two functions / two vectors / two integers / two arrays of length 3 / an array and an index / a reference and an integer / two tuples); oracle: the compiler returns (acceptance or diagnostics) without panic, stack overflow or hang; an accepted program passes the IR checker and the Go checker. non-trivial = bodies the typer rejects; distinct = distinct source text"
     }
     fn cases(&self, _tier: Tier) -> Box<dyn Iterator<Item = Value> + '_> {
         let n = bodies().len();
-        Box::new((0..n).flat_map(|i| (0..6).map(move |fr| json!({"body": i, "frame": fr}))))
+        Box::new((0..n).flat_map(|i| (0..10).map(move |fr| json!({"body": i, "frame": fr}))))
     }
     fn run(&self, case: &Value, ctx: &mut Ctx) -> Report {
         let mut rep = Report::default();
@@ -63,7 +63,13 @@ impl Family for Inference {
             // the parameter types are only fixed by a later application: to functions, to vectors, to integers
             3 => format!("fn inc(k: int32) -> int32 {{ k + 1 }}\nfn dec(k: int32) -> int32 {{ k - 1 }}\nfn main() {{\n    let f = |x, y| {};\n    let r = f(inc, dec);\n    ()\n}}\n", body),
             4 => format!("fn main() {{\n    let w: Vec[int32] = vec_new();\n    let f = |x, y| {};\n    let r = f(w, w);\n    ()\n}}\n", body),
-            _ => format!("fn main() {{\n    let f = |x, y| {};\n    let r = f(1, 2);\n    ()\n}}\n", body),
+            5 => format!("fn main() {{\n    let f = |x, y| {};\n    let r = f(1, 2);\n    ()\n}}\n", body),
+            // … to arrays of a fixed length (the builtins' signatures only know the wildcard length), to an
+            // array and an index, to a reference and an integer, to tuples
+            6 => format!("fn main() {{\n    let a3 = [1, 2, 3];\n    let f = |x, y| {};\n    let r = f(a3, a3);\n    ()\n}}\n", body),
+            7 => format!("fn main() {{\n    let a3 = [1, 2, 3];\n    let f = |x, y| {};\n    let r = f(a3, 1);\n    ()\n}}\n", body),
+            8 => format!("fn main() {{\n    let c = ref(1);\n    let f = |x, y| {};\n    let r = f(c, 2);\n    ()\n}}\n", body),
+            _ => format!("fn main() {{\n    let t = (1, true);\n    let f = |x, y| {};\n    let r = f(t, t);\n    ()\n}}\n", body),
         };
         let site = format!("body={};frame={}", body, case["frame"]);
         let replay = json!({"kind": "text", "text": text, "oracle": "total"});
